@@ -629,9 +629,9 @@ class TranscriptInterval(AbstractFeatureInterval):
         if self.cds.chunk_relative_location == self.chunk_relative_location:
             return EmptyLocation()
         cds_start_on_transcript = self.cds_pos_to_transcript(0)
-        return self.chunk_relative_location.relative_interval_to_parent_location(
-            0, cds_start_on_transcript, Strand.PLUS
-        )
+        # transcript positions are chromosome-level; the chunk-relative location may lack bases at its 5' end
+        utr_end = min(max(cds_start_on_transcript - self._transcript_bases_upstream_of_chunk(), 0), len(self._location))
+        return self.chunk_relative_location.relative_interval_to_parent_location(0, utr_end, Strand.PLUS)
 
     def get_3p_interval(self) -> Location:
         """Returns the 3' UTR as a location, if it exists.
@@ -643,13 +643,25 @@ class TranscriptInterval(AbstractFeatureInterval):
         # handle the edge case where the CDS is full length
         if self.cds.chunk_relative_location == self.chunk_relative_location:
             return EmptyLocation()
-        cds_inclusive_end_on_transcript = self.cds_pos_to_transcript(len(self.cds.chunk_relative_location) - 1)
+        cds_inclusive_end_on_transcript = self.cds_pos_to_transcript(len(self.cds.chromosome_location) - 1)
+        # transcript positions are chromosome-level; the chunk-relative location may lack bases at its 5' end
+        utr_start = cds_inclusive_end_on_transcript + 1 - self._transcript_bases_upstream_of_chunk()
+        utr_start = min(max(utr_start, 0), len(self._location))
         # the CDS reaches the 3' end of the transcript (but not its 5' end): there is no 3' UTR
-        if cds_inclusive_end_on_transcript + 1 == len(self._location):
+        if utr_start == len(self._location):
             return EmptyLocation()
         return self.chunk_relative_location.relative_interval_to_parent_location(
-            cds_inclusive_end_on_transcript + 1, len(self._location), Strand.PLUS
+            utr_start, len(self._location), Strand.PLUS
         )
+
+    def _transcript_bases_upstream_of_chunk(self) -> int:
+        """Number of bases of this transcript 5' of its first base on the sequence chunk (0 if not chunk-relative)."""
+        if not self.is_chunk_relative or self.chunk_relative_location.is_empty:
+            return 0
+        first_base = self.chunk_relative_location.lift_over_to_first_ancestor_of_type(
+            SequenceType.CHROMOSOME
+        ).relative_to_parent_pos(0)
+        return self.sequence_pos_to_transcript(first_base)
 
     @lru_cache(maxsize=1)
     def get_transcript_sequence(self) -> Sequence:
